@@ -231,7 +231,7 @@ def _ledger(run):
     okr_ = bool(ra_) and all(x.startswith("HSMCertificateRoot(") and x.endswith(")") and (x[len("HSMCertificateRoot("):-1] in dflt_ | {"options.root_authority"})
                              for x in ra_)
     run.check("R1", okr_, "the chain is validated against the root just constructed", key=f"{fn.qualname}|root-parsed", where=fn.loc(),
-              message=f"validate_and_get_values is given {sorted(ra_)[:2]}, not the HSMCertificateRoot built from the chosen root authority")
+              message=f"validate_and_get_values is given {sorted(ra_)[:4]}, not the HSMCertificateRoot built from the chosen root authority")
     UI = "bytes.fromhex(result['ui'][1])"
     UIS = "att_cert.validate_and_get_values(root_authority)"
     texts = v.fact_texts(g.exit)
@@ -457,12 +457,12 @@ def _message(run):
     M = P.cls("admin.attestation_utils.PowHsmAttestationMessage")
     ini = P.method(M, "__init__")
     PVm = Prov(A)
-    ef = {_strip(t) for t in F.exit_texts(ini, M, PVm)}
+    from sa.canon import canon_sums
+    ef = {_strip(canon_sums(t)) for t in F.exit_texts(ini, M, PVm)}
     mt = "self.HEADER_REGEX.match(value)"
     run.check("R2", f"{mt} is not None" in ef or "match is not None" in ef, "header must match", key="PowHsmAttestationMessage.__init__|header",
               where=ini.loc(), message="PowHsmAttestationMessage can be built from a message without the header")
-    run.check("R2", any(t in ef for t in (f"len(value[offset:]) == len({mt}.group(0)) + self.get_bytelength()",
-                                          f"len(value[offset:]) == self.get_bytelength() + len({mt}.group(0))")), "exact length enforced",
+    run.check("R2", _strip(canon_sums(f"len(value[offset:]) == len({mt}.group(0)) + self.get_bytelength()")) in ef, "exact length enforced",
               key="PowHsmAttestationMessage.__init__|exact-length", where=ini.loc(),
               message="PowHsmAttestationMessage no longer requires len(message) == len(matched header) + struct size exactly "
                       "(truncated or extended messages would be accepted)")
@@ -471,8 +471,8 @@ def _message(run):
     oksup = len(sup) == 1 and len(sup[0].args) == 3
     if oksup:
         for cn in gi_.nodes_of(sup[0]):
-            a1 = {_strip(x) for x in PVm.expand_consistent(ini, M, sup[0].args[1], cn)}
-            oksup = norm(sup[0].args[0]) == "value" and a1 == {_strip(f"offset + len({mt}.group(0))")} and norm(sup[0].args[2]) == "little"
+            a1 = {_strip(canon_sums(x)) for x in PVm.expand_consistent(ini, M, sup[0].args[1], cn)}
+            oksup = norm(sup[0].args[0]) == "value" and a1 == {_strip(canon_sums(f"offset + len({mt}.group(0))"))} and norm(sup[0].args[2]) == "little"
     run.check("R2", oksup, "struct parsed right after the header", key="PowHsmAttestationMessage.__init__|parse-offset", where=ini.loc(),
               message="the struct is not parsed at offset + header length")
     t = struct_table(run)
